@@ -56,7 +56,12 @@ static const uint32_t kSmallPrimes[11] = {2, 3, 5, 7, 11, 13, 17, 19, 23, 29, 31
 // boundary primes that are cheap to set up (the inverse tables of the run-time Z_p classes cost O(p^2))
 static const uint32_t kMidPrimes[] = {37, 61, 127, 131, 251, 257, 509, 521, 1021, 1031, 2039, 2053, 4093, 4099, 8191};
 // around 2^15, around sqrt(2^31) (46337 is the largest prime with 2(p-1)^2 < 2^32), just below 2^16
+#ifdef C10_BIG_POOL  // thorough-only variant: a wider pool of expensive primes (about 35 s of table building per process)
+static const uint32_t kBigPrimes[] = {65521, 46349, 46337, 32749, 65519, 65497, 59999, 54983, 49999, 39989, 29989, 19997, 11987};
+#else
 static const uint32_t kBigPrimes[] = {65521, 46349, 46337, 32749};
+#endif
+static const unsigned kNumBigPrimes = sizeof(kBigPrimes) / sizeof(kBigPrimes[0]);
 
 inline uint32_t prev_prime(uint32_t n) {
   while (n > 2 && !is_prime(n)) --n;
